@@ -26,6 +26,9 @@ RULE = ("(a) generated definitions with 1-3 random 'wild' edits (references to a
 ASSUMPTIONS = ASSUME_SIM + ["'nothing upstream assigns' is decided on the raw definition: the mutant's variable name occurs nowhere else"]
 
 FORMS = {"yaql": ["ctx(%s)", "ctx('%s')", 'ctx("%s")', "ctx().%s"], "jinja": ["ctx('%s')", 'ctx("%s")', "ctx().%s"]}
+# the unassigned variable referenced inside another (assigned) reference, in mixed forms
+NESTED = {"yaql": ["ctx().x.get(ctx(%s))", "ctx(x).get(ctx('%s'))", 'ctx().y + ctx("%s")', "ctx(x) + ctx().%s"],
+          "jinja": ["ctx().x.get(ctx('%s'))", 'ctx("x") ~ ctx().%s', "ctx().y ~ ctx('%s')"]}
 BROKEN = {"yaql": ["<% ctx(x) + %>", "<% 1 +/ 2 %>", "<% (1 %>", "<% ctx(x). %>"],
           "jinja": ["{{ 1 +/ 2 }}", "{{ ctx('x' }}", "{{ (1 }}", "{{ 1 | }}"]}
 
@@ -139,7 +142,7 @@ def mutants(wf, rng, limit):
             label2, setter2 = positions(mm)[idx]
             setter2(rng.choice(BROKEN[lang]))
             out.append(("broken_grammar:%s:%s" % (label, lang), "expressions", mm))
-            for form in FORMS[lang]:
+            for form in FORMS[lang] + NESTED[lang]:
                 mm = copy.deepcopy(base)
                 label2, setter2 = positions(mm)[idx]
                 body = form % "ghost_var"
@@ -304,7 +307,7 @@ def soundness(job):
                                               workload=job.get("name"),
                                               job=dict({x: job[x] for x in job if x not in ("lo", "hi")}, only=[seed], lo=seed, hi=seed + 1)))
                 break
-            explore.run_free(run, explore.Policy(pseed=h64(seed, sched), lazy_pct=40 * sched), max_steps=150)
+            explore.run_free(run, explore.Policy(pseed=h64(seed, sched), lazy_pct=40 * sched), max_steps=150, max_offers=250)
             run.finish()
             out["evaluations"] += 1
             workloads.collect(out, dict(job, relabel=RELABEL), run, None, (seed, sched), lambda r, mm: True, extra=dict(edits=edits))
